@@ -264,8 +264,8 @@ type WSFrame struct {
 	Op   byte   `json:"op"`   // opText, opBinary, opClose
 	Data []byte `json:"data"` // payload bytes
 	// reference classification
-	Class string `json:"class"`           // frame class for signatures
-	Must  string `json:"must,omitempty"`  // "error-or-close": malformed, the client must get an error frame or a close; "data": expects data frame
+	Class string `json:"class"`              // frame class for signatures
+	Must  string `json:"must,omitempty"`     // "error-or-close": malformed, the client must get an error frame or a close; "data": expects data frame
 	Data2 string `json:"exp_data,omitempty"` // expected payload.data for Must == "data"
 }
 
@@ -293,16 +293,16 @@ type WSStep struct {
 }
 
 type WSObs struct {
-	Handshake string   `json:"handshake"`
-	Steps     []WSStep `json:"steps"`
-	Final     []WSMsg  `json:"final"` // frames after the client's EOF
-	EndState  string   `json:"end_state"`
-	Escaped   string   `json:"escaped,omitempty"`
-	Bad       string   `json:"bad,omitempty"` // framing / JSON violation
-	LateHook    int    `json:"late_hook,omitempty"`
-	LateHookMsg string `json:"late_hook_msg,omitempty"`
-	Alive       bool   `json:"alive"` // every frame was sent and the server still waited for more
-	FramesSent int     `json:"frames_sent"`
+	Handshake   string   `json:"handshake"`
+	Steps       []WSStep `json:"steps"`
+	Final       []WSMsg  `json:"final"` // frames after the client's EOF
+	EndState    string   `json:"end_state"`
+	Escaped     string   `json:"escaped,omitempty"`
+	Bad         string   `json:"bad,omitempty"` // framing / JSON violation
+	LateHook    int      `json:"late_hook,omitempty"`
+	LateHookMsg string   `json:"late_hook_msg,omitempty"`
+	Alive       bool     `json:"alive"` // every frame was sent and the server still waited for more
+	FramesSent  int      `json:"frames_sent"`
 }
 
 const hangGuard = 10 * time.Second
